@@ -27,6 +27,9 @@
 //! | R5 | never removes an entry that still has a retained child | `Why::Child`, `Why::CommentAndChild` ⇒ `*:removed-despite:retained-child` | same |
 //! | R6 | idempotent | second real call in `remove_case` ⇒ `not-idempotent` | every case |
 //! | R7 | "all mapping sets … at every nesting depth": nothing leaks from one entry to its siblings or to the next class | sibling sweeps (`siblings*`: up to 3 fields and 3 methods under one first-namespace name, 2 parameters each), `two-classes*`, `three-classes*`; floors `mixed-siblings:*` | reduced alphabets, see `alpha_siblings`, `alpha_two_classes*`, `alpha_three_classes` |
+//! | R8 | R1/R2 over names as *text* and over odd but legal names (second extension) | same oracle; `names/<level>/*` configurations: the level under test takes every name of its alphabet, of `*_NAMES_ODD` (prefix followed by a letter, prefix without its underscore, bare `net/minecraft/unmapped/C_`, `net/minecraft/unmapped/C`, `…/Cls`, other case, `C_1/Real`, `clinit`, `p_0` at index 1 …) and of `text_names()` (a character of 2, 3, 4 UTF-8 bytes at every byte offset of and just behind every prefix, 0..=27 for the long class prefix, followed by the rest of the name or as last character); the other levels a two-symbol alphabet | N=2 chosen 1 (inverted first names), N=1 chosen 0 (the name is the key), N=3 chosen 1 (identity entries); floors per odd label and `multibyte-*` per level |
+//! | R9 | "only depends on the mapping in the namespace given": identity entries (first-namespace name = chosen-namespace name) are judged like any other | `KeyStyle::Same`: `N=2/ns1/same-keys`, `N=3/ns2/same-keys`, `names/*/N=3/ns1/same-keys` | full alphabets |
+//! | R10 | R1–R6 with many siblings (second extension): numbers of removed / retained entries of one map that do not fit one or two bytes | same oracle; `many-siblings/<n>-{removed, retained, removed-and-one-retained}`: every class gets n extra fields, every method n extra parameters (placeholder names without comment / real names) on top of the decoded ones | n = 255, 256, 257 (thorough also 65535, 65536, 65537) × the smallest alphabets; floors `many-siblings:*` |
 //!
 //! `insert_dummy_and_contract_inner_names` (engine 2, `insert_case` → `judge_insert`):
 //!
@@ -40,7 +43,10 @@
 //! | I6 | drops only nodes that change nothing and have no remaining children | `must_keep_*` ⇒ `*:removal-dropped`, `*:changing-node-dropped`, `*:dropped-with-retained-child`; the diff's own namespace / comment action ⇒ `top-level-changed` | all variants; `top-level-actions` for the diff's own actions |
 //! | I7 | whatever stays is otherwise untouched (a silently wrong answer) | `insert_content` ⇒ `*:name-action-changed`, `*:comment-action-changed`; `*:invented` | all variants; class name actions whose names are inner-class names themselves (`dollar_names`) |
 //! | I8 | idempotent | second real call in `insert_case` ⇒ `not-idempotent` | every case |
-//! | I9 | "all … diffs": nothing leaks from one node to its siblings or to the next class | `siblings/*` (two fields, two fields under one name, two methods under one name, two parameters), `two-classes/*`, `three-classes` (an outer class and its inner classes in one diff) | reduced action alphabets |
+//! | I9 | "all … diffs": nothing leaks from one node to its siblings or to the next class | `siblings/*` (two fields, two fields under one name, two methods under one name, two parameters; second extension: three parameters below one method, three fields and three methods — first / middle / last), `two-classes/*` (second extension: `same-inner-name` = inner classes of two outer classes that share their simple name and hence their placeholder, `same-simple-name` = two packages), `three-classes` (an outer class and its inner classes in one diff) | reduced action alphabets |
+//! | I10 | the placeholder is an ordinary name wherever it is not the old name of a removal (second extension): an addition *of* the placeholder is an addition (I4/I5), an edit *to* it or *away from* it changes the name (I6/I7) | same oracle, `NA::{AddPlaceholder, EditToPlaceholder, EditFromPlaceholder}` in the `placeholder-names/*` variants; floors `*:addition-of-the-placeholder:*`, `*:edit-to-the-placeholder:retained`, `*:edit-from-the-placeholder:retained` | 9 name actions × comment actions at all four levels, top-level and inner key |
+//! | I11 | I1–I7 over keys and names as *text* (second extension) | same oracle; `multibyte` variant (class key, field and method keys and every name inside an action hold characters of 2, 3, 4 UTF-8 bytes), `class-key/*` with multi-byte outer / inner / package parts | floor per level: a removal rewritten in the multi-byte variant |
+//! | I12 | I1–I8 with many siblings (second extension) | same oracle; `many-siblings/<n>-{additions, removals}`: n extra fields per class and n extra parameters (indices from 1000) per method, all additions (discarded) or all removals (rewritten to `p_<index>` / the source name) | n = 255, 256; floors `many-siblings:*` |
 //!
 //! Not decided (the statement is silent): the order of retained entries inside their maps; whether an empty comment
 //! is a comment; whether a change-free childless node must be dropped (it may); whether the comment action of a
@@ -193,6 +199,56 @@ const PARAM_NAMES: &[NameOpt] = &[
 /// the alphabets of DESIGN.md §2 (plus the first extension): the prefix of the extended ones above
 const DESIGN_SIZES: [usize; 4] = [10, 6, 8, 5];
 
+// Second extension: odd but legal names, one per shortcut in the name test that the alphabets above cannot tell from the
+// documented rule (a prefix that must be followed by digits, a prefix compared without its last character, a test that
+// ignores case, a test of the simple name). They are explored one level at a time (`names/*` configurations: the level
+// under test takes every name, the other levels a reduced alphabet), so their number adds up instead of multiplying.
+const CLASS_NAMES_ODD: &[NameOpt] = &[
+	ph("C_x", "placeholder-not-numeric"),
+	ph("net/minecraft/unmapped/C_x", "placeholder-unmapped-not-numeric"),
+	ph("net/minecraft/unmapped/C_", "placeholder-unmapped-bare-prefix"),
+	ph("C_1/Real", "placeholder-prefix-is-package"),
+	no("net/minecraft/unmapped/C", "unmapped-shorter-than-prefix"),
+	no("net/minecraft/unmapped/Cls", "unmapped-real-starting-with-C"),
+	no("net/minecraft/unmapped", "unmapped-package-as-class"),
+	no("c_1", "other-case"),
+	no("net/minecraft/unmapped/c_1", "unmapped-other-case"),
+	no("Net/Minecraft/Unmapped/C_1", "unmapped-package-other-case"),
+	no("C1", "prefix-without-underscore"),
+];
+const FIELD_NAMES_ODD: &[NameOpt] = &[ph("f_x", "placeholder-not-numeric"), no("f1", "prefix-without-underscore"), no("_f_1", "prefix-after-underscore")];
+const METHOD_NAMES_ODD: &[NameOpt] = &[ph("m_x", "placeholder-not-numeric"), no("clinit", "clinit-without-brackets"), no("m1", "prefix-without-underscore"), no("INIT", "other-case-init")];
+const PARAM_NAMES_ODD: &[NameOpt] = &[ph("p_x", "placeholder-not-numeric"), no("P_1", "other-case"), no("p1", "prefix-without-underscore"), ph("p_0", "placeholder-other-index")];
+
+/// "Text is bytes, characters are not": a character of 2, 3 and 4 UTF-8 bytes at every byte offset of (and just behind)
+/// every placeholder prefix of the level, once followed by the rest of the name and once as the last character.
+/// The label is known by construction: the name starts with the prefix exactly when the character sits behind it.
+fn text_names(level: Level) -> Vec<NameOpt> {
+	let bases: &[(&str, usize)] = match level {
+		Level::Class => &[("C_1x", 2), ("net/minecraft/unmapped/C_1x", 25)],
+		Level::Field => &[("f_1x", 2)],
+		Level::Method => &[("m_1x", 2)],
+		Level::Param => &[("p_1x", 2)],
+	};
+	let mut seen = std::collections::BTreeSet::new();
+	let mut out = Vec::new();
+	for (base, prefix_len) in bases {
+		for k in 0..=base.len() {
+			for ch in ["\u{e9}", "\u{20ac}", "\u{1f600}"] {
+				for rest in [&base[k..], ""] {
+					let name = format!("{}{ch}{rest}", &base[..k]);
+					if seen.insert(name.clone()) {
+						let placeholder = k >= *prefix_len;
+						let name: &'static str = Box::leak(name.into_boxed_str());
+						out.push(NameOpt { name: Some(name), placeholder, tag: if placeholder { "multibyte-behind-prefix" } else { "multibyte-inside-prefix" } });
+					}
+				}
+			}
+		}
+	}
+	out
+}
+
 // reduced alphabets for the sweeps with several classes / several siblings per level
 const CLASS_NAMES_2: &[NameOpt] = &[
 	ph("C_1", "placeholder"),
@@ -287,6 +343,9 @@ enum KeyStyle {
 	Placeholder,
 	/// first-namespace name looks like a placeholder exactly when the chosen-namespace name does not
 	Inverted,
+	/// identity entries: the first-namespace name *is* the chosen-namespace name (where there is one), as in a set whose
+	/// target column was filled from the source column
+	Same,
 }
 
 #[derive(Clone, Debug)]
@@ -299,9 +358,37 @@ struct RConfig {
 	alpha: Alpha,
 	classes: usize,
 	top_doc: bool,
+	/// many siblings: every class gets this many extra fields and every method this many extra parameters,
+	/// (removed by the rules, retained by the rules) — placeholder names without comment and real names
+	pad: (usize, usize),
 }
 
 impl RConfig {
+	/// the row of a padding entry: `name` in the chosen namespace, `key` in the first one, something else elsewhere
+	fn pad_row(&self, key: &str, name: &str) -> Row {
+		(0..self.n).map(|j| Some(if j == self.chosen { name.to_owned() } else if j == 0 { key.to_owned() } else { "elsewhere".to_owned() })).collect()
+	}
+
+	fn pad_class(&self, c: &mut MClass) {
+		let (removed, retained) = self.pad;
+		for i in 0..removed + retained {
+			let name = if i < removed { format!("f_9{i}") } else { format!("kept{i}") };
+			let key = if self.chosen == 0 { name.clone() } else { format!("pad{i}") };
+			if c.fields.insert((key.clone(), "S".into()), MField { names: self.pad_row(&key, &name), doc: None }).is_some() {
+				fail("padding field collides");
+			}
+		}
+		for m in c.methods.values_mut() {
+			for i in 0..removed + retained {
+				let name = if i < removed { format!("p_9{i}") } else { format!("kept{i}") };
+				let key = if self.chosen == 0 { name.clone() } else { format!("pad{i}") };
+				if m.params.insert(self.alpha.max_params + i, MParam { names: self.pad_row(&key, &name), doc: None }).is_some() {
+					fail("padding parameter collides");
+				}
+			}
+		}
+	}
+
 	fn total(&self) -> u64 {
 		self.alpha.class_variants().pow(self.classes as u32)
 	}
@@ -314,8 +401,13 @@ impl RConfig {
 		if self.chosen == 0 {
 			return o.name.map(|s| s.to_owned());
 		}
+		if self.keys == KeyStyle::Same {
+			if let Some(n) = o.name {
+				return Some(n.to_owned());
+			}
+		}
 		let looks_placeholder = match self.keys {
-			KeyStyle::Real => false,
+			KeyStyle::Real | KeyStyle::Same => false,
 			KeyStyle::Placeholder => true,
 			KeyStyle::Inverted => !o.placeholder,
 		};
@@ -403,6 +495,7 @@ impl RConfig {
 				}
 			}
 		}
+		self.pad_class(&mut c);
 		(key, c)
 	}
 
@@ -454,6 +547,20 @@ fn alpha_siblings(methods: &[NameOpt], fields: usize, n_methods: usize, params: 
 	Alpha { max_fields: fields, max_methods: n_methods, ..alpha_of(CLASS_NAMES_4, FIELD_NAMES_2, methods, PARAM_NAMES_2, params) }
 }
 
+/// one level takes every name there is (the alphabets above, the odd names and the multi-byte sweep), the other levels
+/// the smallest alphabet that still has both kinds
+fn alpha_names(level: Level) -> Alpha {
+	let every = |base: &[NameOpt], odd: &[NameOpt]| -> Vec<NameOpt> { base.iter().chain(odd).copied().chain(text_names(level)).collect() };
+	let mut a = alpha_of(CLASS_NAMES_4, FIELD_NAMES_2, METHOD_NAMES_4, PARAM_NAMES_2, 1);
+	match level {
+		Level::Class => a.class = every(CLASS_NAMES, CLASS_NAMES_ODD),
+		Level::Field => a.field = every(FIELD_NAMES, FIELD_NAMES_ODD),
+		Level::Method => a.method = every(METHOD_NAMES, METHOD_NAMES_ODD),
+		Level::Param => a.param = every(PARAM_NAMES, PARAM_NAMES_ODD),
+	}
+	a
+}
+
 /// chosen namespace = the first one: the name is the key, so class/field/method cannot be absent
 fn without_absent_keys(mut a: Alpha) -> Alpha {
 	a.class.retain(|o| o.name.is_some());
@@ -465,7 +572,7 @@ fn without_absent_keys(mut a: Alpha) -> Alpha {
 fn remove_configs(tier: Tier) -> Vec<RConfig> {
 	let mut out = Vec::new();
 	let mut push = |label: &str, n: usize, chosen: usize, keys: KeyStyle, order: Order, alpha: Alpha, classes: usize, top_doc: bool| {
-		out.push(RConfig { label: label.to_owned(), n, chosen, keys, order, alpha, classes, top_doc });
+		out.push(RConfig { label: label.to_owned(), n, chosen, keys, order, alpha, classes, top_doc, pad: (0, 0) });
 	};
 	let p = tier.pick(1, 2);
 	push("N=2/ns1/real-keys", 2, 1, KeyStyle::Real, Order::Sorted, alpha_full(p), 1, false);
@@ -480,6 +587,15 @@ fn remove_configs(tier: Tier) -> Vec<RConfig> {
 	push("siblings/N=2/ns1/inverted", 2, 1, KeyStyle::Inverted, Order::Reversed, alpha_siblings(METHOD_NAMES_4, 2, 2, 2), 1, false);
 	push("two-classes-small/N=2/ns1/real-keys", 2, 1, KeyStyle::Real, Order::Reversed, alpha_two_classes_small(), 2, false);
 	push("three-classes/N=3/ns2/inverted", 3, 2, KeyStyle::Inverted, Order::Rotated(1), alpha_three_classes(false), 3, true);
+	// added by the second extension
+	push("N=2/ns1/same-keys", 2, 1, KeyStyle::Same, Order::Sorted, alpha_full(p), 1, false);
+	push("N=3/ns2/same-keys", 3, 2, KeyStyle::Same, Order::Reversed, tier.pick(alpha_design(1), alpha_full(2)), 1, true);
+	for level in [Level::Class, Level::Field, Level::Method, Level::Param] {
+		let l = level.name();
+		push(&format!("names/{l}/N=2/ns1/inverted"), 2, 1, KeyStyle::Inverted, Order::Sorted, alpha_names(level), 1, false);
+		push(&format!("names/{l}/N=1/ns0"), 1, 0, KeyStyle::Real, Order::Reversed, without_absent_keys(alpha_names(level)), 1, false);
+		push(&format!("names/{l}/N=3/ns1/same-keys"), 3, 1, KeyStyle::Same, Order::Reversed, alpha_names(level), 1, true);
+	}
 	if tier == Tier::Thorough {
 		push("N=3/ns2/placeholder-keys", 3, 2, KeyStyle::Placeholder, Order::Reversed, alpha_full(2), 1, false);
 		push("N=3/ns0", 3, 0, KeyStyle::Real, Order::Reversed, without_absent_keys(alpha_full(2)), 1, true);
@@ -489,6 +605,17 @@ fn remove_configs(tier: Tier) -> Vec<RConfig> {
 		push("siblings/N=3/ns1/placeholder-keys", 3, 1, KeyStyle::Placeholder, Order::Rotated(1), alpha_siblings(METHOD_NAMES_2, 2, 2, 2), 1, true);
 		push("siblings-three/N=2/ns1/real-keys", 2, 1, KeyStyle::Real, Order::Rotated(2), Alpha { docs: [true, false, true, false], ..alpha_siblings(METHOD_NAMES_4, 3, 3, 2) }, 1, false);
 		push("three-classes/N=2/ns1/placeholder-keys", 2, 1, KeyStyle::Placeholder, Order::Rotated(2), alpha_three_classes(true), 3, false);
+	}
+	// many siblings (second extension): numbers of removed / retained entries in one map that do not fit one or two bytes
+	let widths: Vec<usize> = tier.pick(vec![255, 256, 257], vec![255, 256, 257, 65535, 65536, 65537]);
+	for w in widths {
+		let kinds: &[(&str, (usize, usize))] = if w < 1000 { &[("removed", (w, 0)), ("retained", (0, w)), ("removed-and-one-retained", (w, 1))] } else { &[("removed", (w, 0)), ("retained", (0, w))] };
+		for (what, pad) in kinds {
+			out.push(RConfig {
+				label: format!("many-siblings/{w}-{what}/N=2/ns1"), n: 2, chosen: 1, keys: KeyStyle::Real, order: Order::Sorted,
+				alpha: alpha_of(CLASS_NAMES_4, FIELD_NAMES_2, METHOD_NAMES_4, PARAM_NAMES_2, 1), classes: 1, top_doc: false, pad: *pad,
+			});
+		}
 	}
 	out
 }
@@ -747,7 +874,14 @@ fn remove_case(rep: &dyn Report, cfg: &RConfig, idx: u64, st: &mut Stats) {
 	if out != input {
 		st.outcome("case:something-removed");
 		st.distinct.add(&(cfg.chosen, &input));
-		st.sample(&format!("remove-{}", removed.min(3)), || json!({"kind": "remove_dummy", "config": cfg.label, "index": idx, "namespace": ns, "input": mapmodel::tiny::print(&input), "output": mapmodel::tiny::print(&out)}));
+		if cfg.pad != (0, 0) {
+			st.outcome(if out.entries() + 256 <= input.entries() { "many-siblings:255-or-more-removed" } else { "many-siblings:fewer-removed" });
+			if out.entries() > 256 {
+				st.outcome("many-siblings:255-or-more-retained");
+			}
+		}
+		// (the padded sets are too long for a sample)
+		st.sample(&format!("remove-{}", if cfg.pad == (0, 0) { removed.min(3).to_string() } else { "many".to_owned() }), || if cfg.pad != (0, 0) { json!({"kind": "remove_dummy", "config": cfg.label, "index": idx, "namespace": ns, "entries_in": input.entries(), "entries_out": out.entries()}) } else { json!({"kind": "remove_dummy", "config": cfg.label, "index": idx, "namespace": ns, "input": mapmodel::tiny::print(&input), "output": mapmodel::tiny::print(&out)}) });
 	} else {
 		st.outcome("case:nothing-removed");
 	}
@@ -812,6 +946,11 @@ enum NA {
 	EditSame,
 	/// a removal whose old name already is the placeholder (the rewritten edit then changes nothing)
 	RemovePlaceholder,
+	/// the placeholder in the other positions an action has: it is an ordinary name there
+	/// (an addition of it is an addition, an edit to it or away from it changes the name)
+	AddPlaceholder,
+	EditToPlaceholder,
+	EditFromPlaceholder,
 }
 
 #[derive(Clone, Copy, Debug, PartialEq, Eq)]
@@ -825,6 +964,7 @@ enum DA {
 
 const NA_ALL: &[NA] = &[NA::None, NA::Add, NA::Remove, NA::Edit, NA::EditSame, NA::RemovePlaceholder];
 const DA_ALL: &[DA] = &[DA::None, DA::Add, DA::Remove, DA::Edit, DA::EditSame];
+const NA_PLACEHOLDERS: &[NA] = &[NA::None, NA::Add, NA::Remove, NA::Edit, NA::EditSame, NA::RemovePlaceholder, NA::AddPlaceholder, NA::EditToPlaceholder, NA::EditFromPlaceholder];
 const NA_SMALL: &[NA] = &[NA::None, NA::Add, NA::Remove, NA::EditSame];
 const DA_SMALL: &[DA] = &[DA::None, DA::Add];
 
@@ -844,6 +984,11 @@ struct DVariant {
 	top: bool,
 	/// the names inside the class name actions are inner-class names themselves (they must come out untouched)
 	dollar_names: bool,
+	/// the names inside all name actions hold characters of 2, 3 and 4 UTF-8 bytes
+	wide_names: bool,
+	/// many siblings: every class gets this many extra fields and every method this many extra parameters, all with
+	/// this name action and without comment action
+	pad: (usize, NA),
 }
 
 const TOP_INFO: &[NA] = &[NA::None, NA::Add, NA::Remove, NA::Edit];
@@ -923,7 +1068,7 @@ impl DVariant {
 			if class_placeholder(key) != *label {
 				fail(&format!("hand label of {key:?} disagrees with class_placeholder()"));
 			}
-			if class_key_is_ambiguous(key) && self.na.contains(&NA::RemovePlaceholder) {
+			if class_key_is_ambiguous(key) && self.na.iter().any(|a| matches!(a, NA::RemovePlaceholder | NA::AddPlaceholder | NA::EditToPlaceholder | NA::EditFromPlaceholder)) {
 				fail(&format!("variant {}: a removal of the placeholder itself needs one definite placeholder, {key:?} has none", self.label));
 			}
 		}
@@ -939,6 +1084,10 @@ impl DVariant {
 
 	fn name_act(&self, level: Level, a: NA, placeholder: &str) -> Act {
 		let (old, new, same) = match level {
+			Level::Class if self.wide_names => ("\u{f6}/X$\u{1e8c}\u{20ac}", "\u{f1}/Y$\u{1f600}", "\u{df}/S$\u{15a}i"),
+			Level::Field if self.wide_names => ("\u{f6}fld", "nfld\u{1f600}", "s\u{20ac}fld"),
+			Level::Method if self.wide_names => ("\u{f6}meth", "nmeth\u{1f600}", "s\u{20ac}meth"),
+			Level::Param if self.wide_names => ("\u{f6}prm", "nprm\u{1f600}", "s\u{20ac}prm"),
 			Level::Class if self.dollar_names => ("o/X$Xi", "n/Y$Yi", "s/S$Si"),
 			Level::Class => ("X", "Y", "S"),
 			Level::Field => ("ofld", "nfld", "sfld"),
@@ -952,6 +1101,9 @@ impl DVariant {
 			NA::Edit => Act::Edit(old.into(), new.into()),
 			NA::EditSame => Act::Edit(same.into(), same.into()),
 			NA::RemovePlaceholder => Act::Remove(placeholder.into()),
+			NA::AddPlaceholder => Act::Add(placeholder.into()),
+			NA::EditToPlaceholder => Act::Edit(old.into(), placeholder.into()),
+			NA::EditFromPlaceholder => Act::Edit(placeholder.into(), new.into()),
 		}
 	}
 
@@ -1003,6 +1155,19 @@ impl DVariant {
 			}
 		}
 		(c.info, c.doc) = self.node_acts(Level::Class, idx, placeholder);
+		for i in 0..self.pad.0 {
+			let name = format!("pad{i}");
+			let info = self.name_act(Level::Field, self.pad.1, &name);
+			if c.fields.insert((name, "S".into()), DField { info, doc: Act::None }).is_some() {
+				fail("padding field collides");
+			}
+			for m in c.methods.values_mut() {
+				let index = PAD_PARAMETER_BASE + i;
+				if m.params.insert(index, DParam { info: self.name_act(Level::Param, self.pad.1, &param_placeholder(index)), doc: Act::None }).is_some() {
+					fail("padding parameter collides");
+				}
+			}
+		}
 		c
 	}
 
@@ -1028,6 +1193,8 @@ impl DVariant {
 	}
 }
 
+/// the indices of padding parameters start here
+const PAD_PARAMETER_BASE: usize = 1000;
 const NA_NO_PLACEHOLDER: &[NA] = &[NA::None, NA::Add, NA::Remove, NA::Edit, NA::EditSame];
 const NA_TINY: &[NA] = &[NA::None, NA::Add, NA::Remove, NA::RemovePlaceholder];
 const NA_THREE: &[NA] = &[NA::None, NA::Add, NA::Remove];
@@ -1036,7 +1203,7 @@ const DA_NONE: &[DA] = &[DA::None];
 fn insert_variants(tier: Tier) -> Vec<DVariant> {
 	let thorough = tier == Tier::Thorough;
 	let one = |label: &str, class_key: &'static str, class_placeholder: &'static str, field: (&'static str, &'static str), method: (&'static str, &'static str), param: (usize, &'static str), order: Order| DVariant {
-		label: label.to_owned(), classes: vec![(class_key, class_placeholder)], fields: vec![field], methods: vec![method], params: vec![param], na: NA_ALL, da: DA_ALL, order, top: false, dollar_names: class_key.contains('$'),
+		label: label.to_owned(), classes: vec![(class_key, class_placeholder)], fields: vec![field], methods: vec![method], params: vec![param], na: NA_ALL, da: DA_ALL, order, top: false, dollar_names: class_key.contains('$'), wide_names: false, pad: (0, NA::None),
 	};
 	let mut out = vec![
 		one("top-level", "A", "A", ("f_1", "I"), ("m_1", "(I)V"), (0, "p_0"), Order::Sorted),
@@ -1052,48 +1219,48 @@ fn insert_variants(tier: Tier) -> Vec<DVariant> {
 	out.push(DVariant {
 		label: "siblings/two-fields-two-params".into(), classes: vec![("A$C", "C")],
 		fields: vec![("f_1", "I"), ("f_2", "I")], methods: vec![("m_1", "(II)V")], params: vec![(0, "p_0"), (1, "p_1")],
-		na: if thorough { NA_ALL } else { NA_SMALL }, da: DA_SMALL, order: Order::Reversed, top: false, dollar_names: false,
+		na: if thorough { NA_ALL } else { NA_SMALL }, da: DA_SMALL, order: Order::Reversed, top: false, dollar_names: false, wide_names: false, pad: (0, NA::None),
 	});
 	out.push(DVariant {
 		label: "siblings/two-methods".into(), classes: vec![("pkg/B", "pkg/B")],
 		fields: vec![], methods: vec![("m_1", "(I)V"), ("m_1", "(J)V")], params: vec![(1, "p_1")],
-		na: if thorough { NA_ALL } else { NA_SMALL }, da: DA_SMALL, order: Order::Reversed, top: false, dollar_names: false,
+		na: if thorough { NA_ALL } else { NA_SMALL }, da: DA_SMALL, order: Order::Reversed, top: false, dollar_names: false, wide_names: false, pad: (0, NA::None),
 	});
 	// ---- added by the extension ----
 	// several classes in one diff (an outer class and its inner classes): nothing may leak from one class to the next
 	out.push(DVariant {
 		label: "two-classes/field-method".into(), classes: vec![("pkg/Out", "pkg/Out"), ("pkg/Out$In", "In")],
 		fields: vec![("f_1", "I")], methods: vec![("m_1", "(I)V")], params: vec![],
-		na: NA_TINY, da: DA_SMALL, order: Order::Sorted, top: false, dollar_names: true,
+		na: NA_TINY, da: DA_SMALL, order: Order::Sorted, top: false, dollar_names: true, wide_names: false, pad: (0, NA::None),
 	});
 	out.push(DVariant {
 		label: "two-classes/method-parameter".into(), classes: vec![("q/M$N", "N"), ("q/M", "q/M")],
 		fields: vec![], methods: vec![("<init>", "(I)V")], params: vec![(0, "p_0")],
-		na: NA_TINY, da: DA_SMALL, order: Order::Reversed, top: false, dollar_names: false,
+		na: NA_TINY, da: DA_SMALL, order: Order::Reversed, top: false, dollar_names: false, wide_names: false, pad: (0, NA::None),
 	});
 	out.push(DVariant {
 		label: "three-classes".into(), classes: vec![("r/A", "r/A"), ("r/A$B", "B"), ("r/A$B$C", "C")],
 		fields: vec![("f_1", "I")], methods: vec![("m_1", "()V")], params: vec![],
-		na: NA_TINY, da: DA_NONE, order: Order::Rotated(1), top: false, dollar_names: true,
+		na: NA_TINY, da: DA_NONE, order: Order::Rotated(1), top: false, dollar_names: true, wide_names: false, pad: (0, NA::None),
 	});
 	if thorough {
 		out.push(DVariant {
 			label: "two-classes/full-depth".into(), classes: vec![("u/P$Q", "Q"), ("u/P", "u/P")],
 			fields: vec![("f_1", "I")], methods: vec![("m_1", "(I)V")], params: vec![(2, "p_2")],
-			na: NA_THREE, da: DA_SMALL, order: Order::Reversed, top: false, dollar_names: true,
+			na: NA_THREE, da: DA_SMALL, order: Order::Reversed, top: false, dollar_names: true, wide_names: false, pad: (0, NA::None),
 		});
 	}
 	// the namespace action and the comment action of the diff itself
 	out.push(DVariant {
 		label: "top-level-actions".into(), classes: vec![("t/A$B", "B")],
 		fields: vec![("f_1", "I")], methods: vec![("m_1", "(I)V")], params: vec![(0, "p_0")],
-		na: if thorough { NA_ALL } else { NA_SMALL }, da: DA_SMALL, order: Order::Sorted, top: true, dollar_names: true,
+		na: if thorough { NA_ALL } else { NA_SMALL }, da: DA_SMALL, order: Order::Sorted, top: true, dollar_names: true, wide_names: false, pad: (0, NA::None),
 	});
 	// fields that share their name (they differ in the descriptor)
 	out.push(DVariant {
 		label: "siblings/two-fields-one-name".into(), classes: vec![("s/F", "s/F")],
 		fields: vec![("f_1", "I"), ("f_1", "J")], methods: vec![], params: vec![],
-		na: NA_ALL, da: DA_ALL, order: Order::Sorted, top: false, dollar_names: false,
+		na: NA_ALL, da: DA_ALL, order: Order::Sorted, top: false, dollar_names: false, wide_names: false, pad: (0, NA::None),
 	});
 	// parameter indices around every width a conversion could truncate to, and the digits a non-decimal rendering changes
 	let index_groups: [(&'static str, Vec<(usize, &'static str)>); 4] = [
@@ -1109,19 +1276,21 @@ fn insert_variants(tier: Tier) -> Vec<DVariant> {
 		out.push(DVariant {
 			label: format!("parameter-index/{}-{}", params[0].0, params[1].0), classes: vec![(key, key)],
 			fields: vec![], methods: vec![("m_1", "(II)V")], params,
-			na: NA_ALL, da: DA_SMALL, order: Order::Sorted, top: false, dollar_names: false,
+			na: NA_ALL, da: DA_SMALL, order: Order::Sorted, top: false, dollar_names: false, wide_names: false, pad: (0, NA::None),
 		});
 	}
 	// shapes of the class key: where the inner name starts
 	let definite: &[(&'static str, &'static str)] = &[
 		("k/A$1", "1"), ("k/Outer$Mid$Inner", "Inner"), ("a$b/C", "a$b/C"), ("a$b/C$D", "D"), ("k/sub/deep/A", "k/sub/deep/A"), ("B$C", "C"),
 		("net/minecraft/unmapped/C_3$C_4$C_5", "C_5"), ("k/A_B", "k/A_B"),
+		// second extension: characters of 2, 3 and 4 UTF-8 bytes before, behind and around the `$`
+		("k/\u{c4}$\u{d6}", "\u{d6}"), ("k/A$\u{1f600}", "\u{1f600}"), ("\u{1f600}/\u{20ac}$\u{e9}x", "\u{e9}x"), ("k/\u{c4}\u{20ac}", "k/\u{c4}\u{20ac}"), ("k/\u{1f600}$B", "B"),
 	];
 	for (key, label) in definite {
 		out.push(DVariant {
 			label: format!("class-key/{key}"), classes: vec![(key, label)],
 			fields: vec![("f_1", "I")], methods: vec![], params: vec![],
-			na: NA_ALL, da: DA_SMALL, order: Order::Sorted, top: false, dollar_names: true,
+			na: NA_ALL, da: DA_SMALL, order: Order::Sorted, top: false, dollar_names: true, wide_names: false, pad: (0, NA::None),
 		});
 	}
 	// … and the shapes the statement does not define an inner name for: everything but the placeholder itself is judged
@@ -1130,9 +1299,64 @@ fn insert_variants(tier: Tier) -> Vec<DVariant> {
 		out.push(DVariant {
 			label: format!("class-key-undefined/{key}"), classes: vec![(key, label)],
 			fields: vec![("f_1", "I")], methods: vec![], params: vec![],
-			na: NA_NO_PLACEHOLDER, da: DA_SMALL, order: Order::Sorted, top: false, dollar_names: true,
+			na: NA_NO_PLACEHOLDER, da: DA_SMALL, order: Order::Sorted, top: false, dollar_names: true, wide_names: false, pad: (0, NA::None),
 		});
 	}
+	// ---- added by the second extension ----
+	// the placeholder in every position of a name action (state that is already there): removal of it, addition of it,
+	// edit to it, edit away from it, at all four levels, below a top-level and an inner class
+	for (label, key, placeholder, field, method, param) in [
+		("placeholder-names/top-level", "h/T", "h/T", ("f_7", "I"), ("m_7", "(I)V"), (0, "p_0")),
+		("placeholder-names/inner", "h/U$V", "V", ("fld", "J"), ("<init>", "(JI)V"), (2, "p_2")),
+	] {
+		out.push(DVariant {
+			label: label.into(), classes: vec![(key, placeholder)], fields: vec![field], methods: vec![method], params: vec![param],
+			na: NA_PLACEHOLDERS, da: if thorough { DA_ALL } else { DA_SMALL }, order: Order::Reversed, top: false, dollar_names: key.contains('$'), wide_names: false, pad: (0, NA::None),
+		});
+	}
+	// two names for one thing: inner classes of different outer classes that share their simple name (one placeholder
+	// for both), top-level classes of different packages that share theirs
+	out.push(DVariant {
+		label: "two-classes/same-inner-name".into(), classes: vec![("v/A$In", "In"), ("v/B$In", "In")],
+		fields: vec![("f_1", "I")], methods: vec![("m_1", "()V")], params: vec![],
+		na: NA_THREE, da: DA_SMALL, order: Order::Sorted, top: false, dollar_names: true, wide_names: false, pad: (0, NA::None),
+	});
+	out.push(DVariant {
+		label: "two-classes/same-simple-name".into(), classes: vec![("w1/S", "w1/S"), ("w2/S", "w2/S")],
+		fields: vec![("f_1", "I")], methods: vec![("m_1", "()V")], params: vec![],
+		na: NA_TINY, da: DA_NONE, order: Order::Reversed, top: false, dollar_names: false, wide_names: false, pad: (0, NA::None),
+	});
+	// placement: the first, the middle and the last of three siblings
+	out.push(DVariant {
+		label: "siblings/three-params".into(), classes: vec![("x/P3", "x/P3")],
+		fields: vec![], methods: vec![("m_1", "(III)V")], params: vec![(0, "p_0"), (1, "p_1"), (2, "p_2")],
+		na: NA_TINY, da: DA_SMALL, order: Order::Rotated(1), top: false, dollar_names: false, wide_names: false, pad: (0, NA::None),
+	});
+	out.push(DVariant {
+		label: "siblings/three-fields-three-methods".into(), classes: vec![("x/F3$M3", "M3")],
+		fields: vec![("f_1", "I"), ("f_2", "I"), ("f_1", "J")], methods: vec![("m_1", "()V"), ("m_2", "()V"), ("m_1", "(I)V")], params: vec![],
+		na: NA_TINY, da: DA_NONE, order: Order::Rotated(2), top: false, dollar_names: false, wide_names: false, pad: (0, NA::None),
+	});
+	// many siblings: numbers of discarded / rewritten entries in one map that do not fit one or two bytes
+	// (no two-byte widths here: the workers' watchdog counts wall time per case, and a diff of 130 000 nodes on a busy
+	// machine must not become a timeout)
+	let many: [(&'static str, &'static str, usize, NA); 4] = [
+		("y/A255", "255-additions", 255, NA::Add), ("y/A256", "256-additions", 256, NA::Add),
+		("y/R255", "255-removals", 255, NA::Remove), ("y/R256", "256-removals", 256, NA::Remove),
+	];
+	for (key, what, n, kind) in many {
+		out.push(DVariant {
+			label: format!("many-siblings/{what}"), classes: vec![(key, key)],
+			fields: vec![("f_1", "I")], methods: vec![("m_1", "(I)V")], params: vec![(0, "p_0")],
+			na: NA_THREE, da: DA_SMALL, order: Order::Sorted, top: false, dollar_names: false, wide_names: false, pad: (n, kind),
+		});
+	}
+	// text is bytes: every key and every name inside an action holds characters of 2, 3 and 4 UTF-8 bytes
+	out.push(DVariant {
+		label: "multibyte".into(), classes: vec![("\u{fc}/\u{c4}$\u{d6}\u{1f600}", "\u{d6}\u{1f600}")],
+		fields: vec![("f\u{e9}", "I")], methods: vec![("m\u{20ac}\u{e9}", "(I)V")], params: vec![(1, "p_1")],
+		na: NA_ALL, da: DA_SMALL, order: Order::Sorted, top: false, dollar_names: true, wide_names: true, pad: (0, NA::None),
+	});
 	out
 }
 
@@ -1186,7 +1410,23 @@ fn must_keep_class(c: &DClass, key: &str) -> bool {
 		|| (!is_add(&c.info) && changes(&c.info, &c.doc, &class_placeholder(key)))
 }
 
+/// where the placeholder sits in a name action that is not a removal (vacuity evidence of the `placeholder-names` variants)
+fn placeholder_position(info: &Act, placeholder: &str) -> Option<&'static str> {
+	match info {
+		Act::Add(b) if b == placeholder => Some("addition-of-the-placeholder"),
+		Act::Edit(a, b) if a != b && b == placeholder => Some("edit-to-the-placeholder"),
+		Act::Edit(a, b) if a != b && a == placeholder => Some("edit-from-the-placeholder"),
+		_ => None,
+	}
+}
+
 impl Judge<'_> {
+	fn tally_placeholder_position(&mut self, level: Level, info: &Act, placeholder: &str, present: bool) {
+		if let Some(pos) = placeholder_position(info, placeholder) {
+			self.tally(&format!("{}:{pos}:{}", level.name(), if present { "retained" } else { "gone" }));
+		}
+	}
+
 	/// the node's own name action and comment action in the output
 	#[allow(clippy::too_many_arguments)]
 	fn insert_content(&mut self, level: Level, path: &Path, placeholder: &str, also_accepted: &[String], inner_class: Option<bool>, info: &Act, doc: &Act, oinfo: &Act, odoc: &Act) {
@@ -1215,6 +1455,7 @@ impl Judge<'_> {
 
 	fn insert_leaf(&mut self, level: Level, path: &Path, placeholder: &str, info: &Act, doc: &Act, out: Option<(&Act, &Act)>) {
 		let l = level.name();
+		self.tally_placeholder_position(level, info, placeholder, out.is_some());
 		match out {
 			None => {
 				if is_add(info) {
@@ -1246,6 +1487,7 @@ impl Judge<'_> {
 	#[allow(clippy::too_many_arguments)]
 	fn insert_parent_present(&mut self, level: Level, path: &Path, placeholder: &str, also_accepted: &[String], inner_class: Option<bool>, info: &Act, doc: &Act, oinfo: &Act, odoc: &Act, remaining_children: usize) {
 		let l = level.name();
+		self.tally_placeholder_position(level, info, placeholder, true);
 		self.insert_content(level, path, placeholder, also_accepted, inner_class, info, doc, oinfo, odoc);
 		if is_add(info) {
 			if remaining_children > 0 {
@@ -1265,8 +1507,10 @@ impl Judge<'_> {
 		}
 	}
 
-	fn insert_parent_absent(&mut self, level: Level, path: &Path, info: &Act, doc: &Act, child_must_stay: bool, must_keep: bool) {
+	#[allow(clippy::too_many_arguments)]
+	fn insert_parent_absent(&mut self, level: Level, path: &Path, placeholder: &str, info: &Act, doc: &Act, child_must_stay: bool, must_keep: bool) {
 		let l = level.name();
+		self.tally_placeholder_position(level, info, placeholder, false);
 		if must_keep {
 			let what = if child_must_stay {
 				if is_add(info) { "addition-with-children-dropped" } else { "dropped-with-retained-child" }
@@ -1299,7 +1543,7 @@ fn judge_insert(j: &mut Judge, input: &MDiff, out: &MDiff) {
 		match out.classes.get(ck) {
 			None => {
 				let child_must_stay = c.fields.iter().any(|((n, _), f)| must_keep_leaf(&f.info, &f.doc, n)) || c.methods.iter().any(|((n, _), m)| must_keep_method(m, n));
-				j.insert_parent_absent(Level::Class, &cpath, &c.info, &c.doc, child_must_stay, must_keep_class(c, ck));
+				j.insert_parent_absent(Level::Class, &cpath, &cph, &c.info, &c.doc, child_must_stay, must_keep_class(c, ck));
 			},
 			Some(oc) => {
 				for (fk, f) in &c.fields {
@@ -1315,7 +1559,7 @@ fn judge_insert(j: &mut Judge, input: &MDiff, out: &MDiff) {
 					match oc.methods.get(mk) {
 						None => {
 							let child_must_stay = m.params.iter().any(|(i, p)| must_keep_leaf(&p.info, &p.doc, &param_placeholder(*i)));
-							j.insert_parent_absent(Level::Method, &mpath, &m.info, &m.doc, child_must_stay, must_keep_method(m, &mk.0));
+							j.insert_parent_absent(Level::Method, &mpath, &mk.0, &m.info, &m.doc, child_must_stay, must_keep_method(m, &mk.0));
 						},
 						Some(om) => {
 							for (pk, p) in &m.params {
@@ -1377,10 +1621,43 @@ fn insert_case(rep: &dyn Report, v: &DVariant, idx: u64, st: &mut Stats) {
 	if input.classes.len() >= 2 && !out.classes.is_empty() && out.classes.len() < input.classes.len() {
 		st.outcome("several-classes:some-dropped-some-retained");
 	}
+	{
+		// vacuity evidence: two class removals in one diff that are edited back to one and the same simple inner name;
+		// three parameter removals below one method
+		let rewritten_to = |i: &Act, o: &Act| -> Option<String> {
+			match (i, o) {
+				(Act::Remove(a), Act::Edit(x, y)) if a == x => Some(y.clone()),
+				_ => None,
+			}
+		};
+		let mut targets: Vec<String> = input.classes.iter().filter_map(|(k, c)| out.classes.get(k).and_then(|oc| rewritten_to(&c.info, &oc.info))).collect();
+		let n = targets.len();
+		targets.sort();
+		targets.dedup();
+		if targets.len() < n {
+			st.outcome("several-classes:removals-rewritten-to-one-name");
+		}
+		for (ck, c) in &input.classes {
+			for (mk, m) in &c.methods {
+				if let Some(om) = out.classes.get(ck).and_then(|oc| oc.methods.get(mk)) {
+					if m.params.iter().filter(|(i, p)| om.params.get(*i).is_some_and(|op| rewritten_to(&p.info, &op.info).is_some())).count() >= 3 {
+						st.outcome("siblings:three-parameter-removals-below-one-method");
+					}
+				}
+			}
+		}
+	}
 	if out != input {
 		st.outcome("case:diff-rewritten");
 		let c = &input.classes[v.classes[0].0];
-		st.sample(&format!("insert-{}-{}", v.label, c.info.kind()), || json!({"kind": "insert_dummy_and_contract_inner_names", "variant": v.label, "index": idx, "input": mapmodel::diff::print(&input), "output": mapmodel::diff::print(&out)}));
+		if v.pad.0 > 0 {
+			// (the padded diffs are too long for a sample)
+			let count = |d: &MDiff| -> usize { d.classes.values().map(|c| 1 + c.fields.len() + c.methods.values().map(|m| 1 + m.params.len()).sum::<usize>()).sum() };
+			st.outcome(if count(&out) + 255 <= count(&input) { "many-siblings:255-or-more-nodes-gone" } else { "many-siblings:255-or-more-nodes-retained" });
+			st.sample(&format!("insert-{}", v.label), || json!({"kind": "insert_dummy_and_contract_inner_names", "variant": v.label, "index": idx, "nodes_in": count(&input), "nodes_out": count(&out)}));
+		} else {
+			st.sample(&format!("insert-{}-{}", v.label, c.info.kind()), || json!({"kind": "insert_dummy_and_contract_inner_names", "variant": v.label, "index": idx, "input": mapmodel::diff::print(&input), "output": mapmodel::diff::print(&out)}));
+		}
 	} else {
 		st.outcome("case:diff-unchanged");
 	}
@@ -1590,7 +1867,7 @@ fn main() {
 	let mut rem_bounds = Vec::new();
 	for cfg in &rconfigs {
 		let st = run_remove(ctx, cfg);
-		rem_bounds.push(json!({"config": cfg.label, "namespaces": cfg.n, "chosen_namespace_index": cfg.chosen, "first_namespace_names": format!("{:?}", cfg.keys), "insertion_order": format!("{:?}", cfg.order), "classes": cfg.classes, "max_parameters": cfg.alpha.max_params, "alphabet": cfg.alpha.describe(), "cases": cfg.total(), "real_executions": st.evaluations}));
+		rem_bounds.push(json!({"config": cfg.label, "namespaces": cfg.n, "chosen_namespace_index": cfg.chosen, "first_namespace_names": format!("{:?}", cfg.keys), "insertion_order": format!("{:?}", cfg.order), "classes": cfg.classes, "max_parameters": cfg.alpha.max_params, "padding_entries_per_map": {"removed_by_the_rules": cfg.pad.0, "retained_by_the_rules": cfg.pad.1}, "alphabet": cfg.alpha.describe(), "cases": cfg.total(), "real_executions": st.evaluations}));
 		rem = rem.merge(st);
 	}
 	// a namespace that does not exist: anything but a panic (the documentation is silent)
@@ -1609,8 +1886,14 @@ fn main() {
 	}
 	let mut ins = Stats::new();
 	let mut ins_bounds = Vec::new();
+	let mut multibyte_rewritten: BTreeMap<&'static str, u64> = BTreeMap::new();
 	for (v, st) in variants.iter().zip(collect_insert_workers(ctx, workers, &variants)) {
-		ins_bounds.push(json!({"variant": v.label, "class_keys": v.classes.iter().map(|c| c.0).collect::<Vec<_>>(), "fields": v.fields.len(), "methods": v.methods.len(), "parameter_indices": v.params.iter().map(|p| p.0).collect::<Vec<_>>(), "diff_own_actions_explored": v.top, "insertion_order": format!("{:?}", v.order), "name_actions": format!("{:?}", v.na), "comment_actions": format!("{:?}", v.da), "cases": v.total(), "real_executions": st.evaluations}));
+		if v.wide_names {
+			for l in ["class", "field", "method", "parameter"] {
+				*multibyte_rewritten.entry(l).or_default() += sum(&st, &format!("{l}:removal-rewritten"));
+			}
+		}
+		ins_bounds.push(json!({"variant": v.label, "class_keys": v.classes.iter().map(|c| c.0).collect::<Vec<_>>(), "fields": v.fields.len(), "methods": v.methods.len(), "parameter_indices": v.params.iter().map(|p| p.0).collect::<Vec<_>>(), "diff_own_actions_explored": v.top, "padding_nodes_per_map": {"count": v.pad.0, "name_action": format!("{:?}", v.pad.1)}, "insertion_order": format!("{:?}", v.order), "name_actions": format!("{:?}", v.na), "comment_actions": format!("{:?}", v.da), "cases": v.total(), "real_executions": st.evaluations}));
 		ins = ins.merge(st);
 	}
 	let ins_nontrivial = ins.get("case:diff-rewritten");
@@ -1665,6 +1948,26 @@ fn main() {
 			ctx.floor(&format!("remove_dummy: {l} kept because of its name: {t}"), 1, rem.get(&format!("{l}:kept:name-{t}")));
 		}
 	}
+	ctx.floor("remove_dummy: 255 or more entries removed from one set", 100, rem.get("many-siblings:255-or-more-removed"));
+	ctx.floor("remove_dummy: 255 or more entries retained in one set", 100, rem.get("many-siblings:255-or-more-retained"));
+	// the spaces added by the second extension
+	for (l, removed, kept) in [
+		("class", &["placeholder-not-numeric", "placeholder-unmapped-not-numeric", "placeholder-unmapped-bare-prefix", "placeholder-prefix-is-package"][..], &["unmapped-shorter-than-prefix", "unmapped-real-starting-with-C", "unmapped-package-as-class", "other-case", "unmapped-other-case", "unmapped-package-other-case", "prefix-without-underscore"][..]),
+		("field", &["placeholder-not-numeric"][..], &["prefix-without-underscore", "prefix-after-underscore"][..]),
+		("method", &["placeholder-not-numeric"][..], &["clinit-without-brackets", "prefix-without-underscore", "other-case-init"][..]),
+		("parameter", &["placeholder-not-numeric", "placeholder-other-index"][..], &["other-case", "prefix-without-underscore"][..]),
+	] {
+		for t in removed {
+			ctx.floor(&format!("remove_dummy: {l} removed: {t}"), 1, rem.get(&format!("{l}:removed:{t}")));
+		}
+		for t in kept {
+			ctx.floor(&format!("remove_dummy: {l} kept because of its name: {t}"), 1, rem.get(&format!("{l}:kept:name-{t}")));
+		}
+		// the multi-byte sweep: three characters at every offset, in three configurations
+		let prefixes = if l == "class" { 2 + 25 } else { 2 };
+		ctx.floor(&format!("remove_dummy: {l} kept, multi-byte character inside the prefix"), 3 * 3 * prefixes, rem.get(&format!("{l}:kept:name-multibyte-inside-prefix")));
+		ctx.floor(&format!("remove_dummy: {l} removed, multi-byte character behind the prefix"), 3 * 3 * 3, rem.get(&format!("{l}:removed:multibyte-behind-prefix")));
+	}
 	for l in ["class", "field", "method", "parameter"] {
 		ctx.floor(&format!("remove_dummy: of several {l} entries in one map some removed and some retained"), 100, rem.get(&format!("mixed-siblings:{l}")));
 	}
@@ -1679,6 +1982,20 @@ fn main() {
 		ctx.floor(&format!("insert_dummy: parameter removal rewritten to p_<index>, index of {d}"), 1, ins.get(&format!("parameter:removal-rewritten:index-of-{d}")));
 	}
 	ctx.floor("insert_dummy: class removal under a key without a defined inner name judged", 1, ins.get("lenient:class:removal-rewritten:undefined-inner-name"));
+	// the spaces added by the second extension
+	for l in ["class", "field", "method", "parameter"] {
+		ctx.floor(&format!("insert_dummy: {l} edit to the placeholder retained"), 1, ins.get(&format!("{l}:edit-to-the-placeholder:retained")));
+		ctx.floor(&format!("insert_dummy: {l} edit away from the placeholder retained"), 1, ins.get(&format!("{l}:edit-from-the-placeholder:retained")));
+		ctx.floor(&format!("insert_dummy: {l} addition of the placeholder discarded"), 1, ins.get(&format!("{l}:addition-of-the-placeholder:gone")));
+		ctx.floor(&format!("insert_dummy: {l} removal rewritten where keys and names hold multi-byte characters"), 1, multibyte_rewritten.get(l).copied().unwrap_or(0));
+	}
+	for l in ["class", "method"] {
+		ctx.floor(&format!("insert_dummy: {l} addition of the placeholder with children retained"), 1, ins.get(&format!("{l}:addition-of-the-placeholder:retained")));
+	}
+	ctx.floor("insert_dummy: 255 or more nodes of one diff discarded", 100, ins.get("many-siblings:255-or-more-nodes-gone"));
+	ctx.floor("insert_dummy: 255 or more nodes of one diff retained", 100, ins.get("many-siblings:255-or-more-nodes-retained"));
+	ctx.floor("insert_dummy: two class removals in one diff edited back to one simple inner name", 100, ins.get("several-classes:removals-rewritten-to-one-name"));
+	ctx.floor("insert_dummy: three parameter removals below one method rewritten", 10, ins.get("siblings:three-parameter-removals-below-one-method"));
 	for v in &variants {
 		ctx.floor(&format!("insert_dummy: variant {} ran completely", v.label), v.total() * 2, ins_bounds.iter().find(|b| b["variant"] == v.label.as_str()).and_then(|b| b["real_executions"].as_u64()).unwrap_or(0));
 	}
@@ -1706,7 +2023,12 @@ fn main() {
 			"remove_dummy": {
 				"class_names": alphabet(CLASS_NAMES), "field_names": alphabet(FIELD_NAMES), "method_names": alphabet(METHOD_NAMES), "parameter_names": alphabet(PARAM_NAMES),
 				"comment": ["absent", "present"], "fields_per_class": "0..1 (siblings configurations: 0..3)", "methods_per_class": "0..1 (siblings configurations: 0..3)", "classes": "1 (two-classes / three-classes configurations: 2, 3)", "namespaces": "1..4",
-				"note": "the listed names are the extended alphabets; every configuration lists the alphabet it really uses under 'alphabet'",
+				"odd_names": {"class": alphabet(CLASS_NAMES_ODD), "field": alphabet(FIELD_NAMES_ODD), "method": alphabet(METHOD_NAMES_ODD), "parameter": alphabet(PARAM_NAMES_ODD)},
+				"multibyte_sweep": {
+					"rule": "for every placeholder prefix P of the level (base = P + \"1x\"), every byte offset k in 0..=len(base), every character of U+00E9 (2 bytes), U+20AC (3 bytes), U+1F600 (4 bytes): base[..k] + character + base[k..] and base[..k] + character",
+					"names": {"class": text_names(Level::Class).len(), "field": text_names(Level::Field).len(), "method": text_names(Level::Method).len(), "parameter": text_names(Level::Param).len()},
+				},
+				"note": "the listed names are the extended alphabets; the odd names and the multi-byte sweep are explored in the names/<level>/* configurations; every configuration lists the alphabet it really uses under 'alphabet'",
 				"configurations": rem_bounds,
 			},
 			"insert_dummy": {"levels": 4, "children_per_level": "0..1 (siblings variants: 0..2)", "classes_per_diff": "1 (two-classes / three-classes variants: 2, 3)", "variants": ins_bounds},
